@@ -797,6 +797,8 @@ def expr_text(e):
     if k == 'bin':
         return '%s %s %s' % (expr_text(e['l']), OPTXT[e['o']], expr_text(e['r']))
     if k == 'fn':
+        if e['n'] == 'err':
+            return 'ERR'
         if e['n'] in ('lbound', 'ubound'):
             return '%s(%s, %s)' % (e['n'].upper(), e['arr'], expr_text(e['args'][0]))
         return '%s(%s)' % (e['n'].upper(), ', '.join(expr_text(a) for a in e['args']))
@@ -850,6 +852,12 @@ class Unparser:
             return 'EXIT ' + s['what'].upper()
         if k == 'end':
             return 'END'
+        if k == 'onerror':
+            if s['mode'] == 'goto':
+                return 'ON ERROR GOTO ' + s['label']
+            return 'ON ERROR RESUME NEXT' if s['mode'] == 'next' else 'ON ERROR GOTO 0'
+        if k == 'resume':
+            return 'RESUME NEXT' if s['next'] else 'RESUME'
         if k == 'callsub':
             args = ', '.join(expr_text(a) for a in s['args'])
             if s.get('form') == 'call':
@@ -1054,6 +1062,10 @@ def strip_for_tlc(prog):
             return {'k': 'label', 'n': s['n'], 'ln': ln}
         if k in ('return', 'end', 'nop'):
             return {'k': k, 'ln': ln}
+        if k == 'onerror':
+            return {'k': 'onerror', 'mode': s['mode'], 'label': s.get('label', ''), 'ln': ln}
+        if k == 'resume':
+            return {'k': 'resume', 'next': s['next'], 'ln': ln}
         if k == 'exit':
             return {'k': 'exit', 'what': s['what'], 'ln': ln}
         if k == 'callsub':
@@ -1065,6 +1077,7 @@ def strip_for_tlc(prog):
     def blk(b):
         return [st(s) for s in b]
     return {'main': blk(prog['main']),
+            'errcodes': prog.get('errcodes', {'DIV0': 0}),
             'shared': prog['shared'],
             'consts': [{'n': c['n'], 'pi': c['pi'], 'e': ex(c['e'])} for c in prog['consts']],
             'procs': [{'n': p['n'], 'kind': p['kind'], 'rt': p['rt'] or 'I', 'statics': p['statics'],
